@@ -107,6 +107,17 @@ func (x *Run) Block(b BlockSpec) (*BlockResult, error) {
 
 // BlockAt is Block with a gap callback (see Replica.ExecBlock).
 func (x *Run) BlockAt(b BlockSpec, wantDigest bool, at func(g Gap) bool) (*BlockResult, error) {
+	req := x.Prepare(b)
+	res := x.R.ExecBlock(req, wantDigest, at)
+	if res == nil {
+		return nil, nil
+	}
+	return res, x.Finish(res)
+}
+
+// Prepare sends the block's transactions through CheckTx (unless NoCheck) and lets the chain produce
+// the block; the returned request can be executed (several times, after restarts) with x.R.ExecBlock.
+func (x *Run) Prepare(b BlockSpec) *BlockReq {
 	var txs [][]byte
 	for _, t := range b.Txs {
 		txs = append(txs, t.Bytes())
@@ -118,21 +129,18 @@ func (x *Run) BlockAt(b BlockSpec, wantDigest bool, at func(g Gap) bool) (*Block
 			checks = append(checks, x.R.CheckTx(tx))
 		}
 	}
+	x.Checks = append(x.Checks, checks)
 	dt := b.Dt
 	if dt == 0 {
 		dt = DefaultDt
 	}
-	req := x.C.NextBlock(txs, dt, x.absentSet(b.Absent), x.byz(b.Byz))
-	res := x.R.ExecBlock(req, wantDigest, at)
-	if res == nil {
-		return nil, nil
-	}
+	return x.C.NextBlock(txs, dt, x.absentSet(b.Absent), x.byz(b.Byz))
+}
+
+// Finish records the lead replica's result of the block produced last and advances the chain.
+func (x *Run) Finish(res *BlockResult) error {
 	x.Results = append(x.Results, res)
-	x.Checks = append(x.Checks, checks)
-	if err := x.C.AfterBlock(res); err != nil {
-		return res, err
-	}
-	return res, nil
+	return x.C.AfterBlock(res)
 }
 
 // Empty runs n empty blocks.
@@ -186,4 +194,26 @@ func RunScenario(sc *Scenario) (*Run, TxRes, TxRes, error) {
 		}
 	}
 	return x, chk, dlv, nil
+}
+
+// History returns the scenario as a plain list of blocks: prefix, the target alone in a block, After
+// empty blocks. TargetBlock is the index of the target's block.
+func (sc *Scenario) History(w *World) (blocks []BlockSpec, targetBlock int) {
+	if sc.Prefix != nil {
+		blocks = append(blocks, sc.Prefix(w)...)
+	}
+	targetBlock = len(blocks)
+	blocks = append(blocks, BlockSpec{Txs: []*TxSpec{sc.Target(w)}})
+	for i := 0; i < sc.After; i++ {
+		blocks = append(blocks, BlockSpec{})
+	}
+	return
+}
+
+// ID is a stable identifier of the scenario.
+func (sc *Scenario) ID() string {
+	if sc.Note == "" {
+		return sc.Kind
+	}
+	return sc.Kind + "/" + sc.Note
 }
